@@ -96,7 +96,7 @@ class Gen:
             # vendor payload with look-alikes: a nested <item>, a nested <p>, a nested <story>
             extra.append(E('mosExternalMetadata', E('mosSchema', text='vendor'),
                            E('mosPayload', E('item', E('itemSlug', text='nested item')), E('p', text='nested paragraph'),
-                             E('story', E('storyID', text='nested')))))
+                             E('story', E('storyID', text='nested')), E('storyItem', E('itemID', text='nested storyItem')))))
         if r.random() < 0.1:
             extra.append(E('itemChannel', text='A', attrs={'note': 'the "late" edition', 'x': "it's", 'nl': 'a\nb'}))
         return B.item(iid, slug=r.random() < 0.8, extra=extra)
@@ -115,6 +115,9 @@ class Gen:
             for c in out:
                 if r.random() < 0.6:
                     c[3] = r.choice([' tail text ', '\n    ', 'Ünï', ' & ', 'x'])
+        if r.random() < 0.08:
+            # a storyItem that is NOT a direct child of the body (inside a paragraph): it is content, not an item of the story
+            out.insert(r.randrange(len(out) + 1), E('p', E('storyItem', E('itemID', text='deep'), E('itemSlug', text='embedded')), text='para with an embedded cue'))
         if r.random() < 0.2:
             out.append(E('storyNum', text='4', tail='\n   '))
         if r.random() < 0.12:
